@@ -58,7 +58,12 @@ def cases(draw):
     case["keep"] = draw(st.booleans())
     # another solver on another problem is created and stepped between the calls
     if draw(st.integers(0, 2)) == 0:
-        case["decoy"] = draw(gen.problem_recipe(dims=(1, 2, 3), styles=True))
+        case["decoy"] = draw(gen.problem_recipe(dims=(recipe["n"],) if draw(st.booleans()) else (1, 2, 3), styles=True))
+        # the other solver may be handed the very SolverParameters object of this one (same dimension only)
+        case["decoy_shares_params"] = case["decoy"]["n"] == recipe["n"] and draw(st.booleans())
+    sp = draw(gen.start_points(recipe))
+    if sp is not None:
+        case["params"] = dict(params, startPoint=sp)
     return case
 
 
@@ -103,9 +108,15 @@ def body(case):
         nops += 1
         if case.get("decoy") is not None:
             if decoy is None:
-                decoy = Run(case["decoy"], {"r": 2.5, "eps": 1e-3, "itersLimit": 50}, record=False)
+                if case.get("decoy_shares_params"):
+                    decoy = Run(case["decoy"], case["params"], record=False, refine=case["refine"], sp_obj=run.sp)
+                else:
+                    decoy = Run(case["decoy"], {"r": 2.5, "eps": 1e-3, "itersLimit": 50}, record=False)
             try:
-                decoy.step(1)
+                if case.get("decoy_shares_params") and nops == len(case["ops"]):
+                    decoy.solve()         # (with refinement, if this run refines)
+                else:
+                    decoy.step(1)
             except Exception as e:
                 if "outside of interval" not in str(e):
                     raise
